@@ -536,13 +536,13 @@ func (st *State) mapUpdate(m, k, v Val) {
 	// length
 	ck := "MC#" + typeKey(m.T.Underlying())
 	ch := st.heapTerm(ck, SInt, false)
-	st.setHeap(ck, Store(ch, m.L[0], Ite(has, Select(ch, m.L[0]), Add(Select(ch, m.L[0]), I(1)))))
-	st.setHeap(dk, Store(dh, m.L[0], Store(Select(dh, m.L[0]), kt, TTrue)))
+	st.setHeapRow(ck, m.L[0], Store(ch, m.L[0], Ite(has, Select(ch, m.L[0]), Add(Select(ch, m.L[0]), I(1)))))
+	st.setHeapRow(dk, m.L[0], Store(dh, m.L[0], Store(Select(dh, m.L[0]), kt, TTrue)))
 	ls := leavesOf(mt.Elem())
 	for i, l := range ls {
 		key := vk(l.Path)
 		h := st.heapTerm(key, l.Sort, true)
-		st.setHeap(key, Store(h, m.L[0], Store(Select(h, m.L[0]), kt, v.L[i])))
+		st.setHeapRow(key, m.L[0], Store(h, m.L[0], Store(Select(h, m.L[0]), kt, v.L[i])))
 	}
 	if v.C != nil {
 		st.ctx.closures[v.L[0].S] = v.C
@@ -557,8 +557,8 @@ func (st *State) mapDelete(m, k Val) {
 	ck := "MC#" + typeKey(m.T.Underlying())
 	ch := st.heapTerm(ck, SInt, false)
 	// delete on a nil map is a no-op
-	st.setHeap(ck, Store(ch, m.L[0], Ite(has, Sub(Select(ch, m.L[0]), I(1)), Select(ch, m.L[0]))))
-	st.setHeap(dk, Ite(Eq(m.L[0], I(0)), dh, Store(dh, m.L[0], Store(Select(dh, m.L[0]), kt, TFalse))))
+	st.setHeapRow(ck, m.L[0], Store(ch, m.L[0], Ite(has, Sub(Select(ch, m.L[0]), I(1)), Select(ch, m.L[0]))))
+	st.setHeapRow(dk, m.L[0], Ite(Eq(m.L[0], I(0)), dh, Store(dh, m.L[0], Store(Select(dh, m.L[0]), kt, TFalse))))
 }
 
 // ---------------------------------------------------------------------------
@@ -1059,7 +1059,7 @@ func (e *Engine) enterLoop(st *State, li *loopInfo, from *ssa.BasicBlock, k cont
 		}
 	}
 	// 2. havoc: cells stored in the loop, and heap components written by one dry run of the body
-	keys := e.dryRun(st, li)
+	keys, dinfo := e.dryRun(st, li)
 	st.bumpFrontier()
 	for _, a := range li.allocs {
 		pv, ok := st.fr.regs[a]
@@ -1094,7 +1094,17 @@ func (e *Engine) enterLoop(st *State, li *loopInfo, from *ssa.BasicBlock, k cont
 		}
 	}
 	for _, key := range keys {
-		st.havocKey(key)
+		rowsOnly := !dinfo.whole[key] && len(dinfo.rows[key]) > 0
+		for _, r := range dinfo.rows[key] {
+			if !loopInvariantRef(r, dinfo.start) {
+				rowsOnly = false
+			}
+		}
+		if rowsOnly {
+			st.havocRows(key, dinfo.rows[key], dinfo.sorts[key])
+		} else {
+			st.havocKey(key)
+		}
 	}
 	for g := range st.ghost {
 		if st.ctx.ghostInLoop(li, g) {
@@ -1102,7 +1112,7 @@ func (e *Engine) enterLoop(st *State, li *loopInfo, from *ssa.BasicBlock, k cont
 			st.ghost[g] = st.freshValLike(old, "hv!ghost!"+g)
 		}
 	}
-	st.event(fmt.Sprintf("loop*%d", li.ordinal), token.NoPos)
+	st.event(fmt.Sprintf("loop*%d", li.ordinal), token.NoPos, st.frontierTerm())
 	// 3. assume invariant
 	if ls != nil {
 		for _, inv := range ls.Invariants {
@@ -1288,9 +1298,9 @@ func (e *Engine) backEdge(st *State, li *loopInfo, from *ssa.BasicBlock) {
 
 // dryRun executes the loop body once without emitting obligations, to collect
 // the heap components the body may write.
-func (e *Engine) dryRun(st *State, li *loopInfo) []string {
+func (e *Engine) dryRun(st *State, li *loopInfo) ([]string, *dryInfo) {
 	d := st.clone()
-	d.dry = &dryInfo{keys: map[string]bool{}, loop: li, fr: st.fr.fn}
+	d.dry = &dryInfo{keys: map[string]bool{}, loop: li, fr: st.fr.fn, rows: map[string][]Term{}, whole: map[string]bool{}, sorts: map[string]string{}, start: st.ctx.fresh}
 	info := d.dry
 	// havoc stored cells first so that constant folding cannot hide a branch
 	for _, a := range li.allocs {
@@ -1330,9 +1340,16 @@ func (e *Engine) dryRun(st *State, li *loopInfo) []string {
 	if st.dry != nil {
 		for _, k := range keys {
 			st.dry.keys[k] = true
+			if info.whole[k] {
+				st.dry.whole[k] = true
+			}
+			st.dry.rows[k] = append(st.dry.rows[k], info.rows[k]...)
+			if info.sorts[k] != "" {
+				st.dry.sorts[k] = info.sorts[k]
+			}
 		}
 	}
-	return keys
+	return keys, info
 }
 
 // ---------------------------------------------------------------------------
